@@ -300,9 +300,21 @@ class TU:
             self.enum_types['<anon@%s:%s>' % (basename(n.get('_file')), n.get('_line'))] = vals
 
     def func(self, name):
+        """the function as the rules see it: calls of file-local helpers that do not exist in the reference tree are
+        replaced by the helper's body (normal.inline_new_helpers), so that a block moved into a new static helper is
+        analysed where it used to stand. On a tree without new helpers this is the parsed function itself."""
         if name not in self.funcs:
             raise AnalysisError('function %s not found in %s' % (name, self.cfile))
-        return self.funcs[name]
+        if os.environ.get('REBVERIF_RAWNAMES') == '1':
+            return self.funcs[name]
+        cache = self.__dict__.setdefault('_inlined', {})
+        if name not in cache:
+            from . import normal
+            try:
+                cache[name] = normal.with_new_helpers_inlined(self, self.funcs[name])
+            except Exception:
+                cache[name] = self.funcs[name]
+        return cache[name]
 
 
 def _fold_int(c):
